@@ -215,7 +215,11 @@ def r162(repo, ctx):
                         break
         if total is not None:
             mult[kind] = total
-    ctx.check(mult == MULT, 'R16.2', LN, 'loadPoints', lp, f'orbit multiplicities in the generator are {MULT}', f'orbit multiplicities in the generator are {mult}, expected {MULT}', construct=f'multiplicities {mult}')
+    if not sel_tests:
+        ctx.undecided('R16.2', LN, 'loadPoints', lp, 'the orbit generator does not select the orbit type by comparing it with string literals inside loadPoints (dispatch through a table of functions?): '
+                      'multiplicities and literal orbits are not read off')
+    else:
+        ctx.check(mult == MULT, 'R16.2', LN, 'loadPoints', lp, f'orbit multiplicities in the generator are {MULT}', f'orbit multiplicities in the generator are {mult}, expected {MULT}', construct=f'multiplicities {mult}')
     for name, (node, rows) in tabs.items():
         wsum = sum(r[1] * MULT.get(r[0], 0) for r in rows)
         npts = sum(MULT.get(r[0], 0) for r in rows)
